@@ -8,12 +8,16 @@ from .. import core, genpf, sx
 
 THEOREMS = ['C08.stateful_run_pushes_advertised_conclusion', 'C08.basic_run_returns_advertised_conclusion',
             'C08.stateful_success_implies_basic_success', 'C08.basic_success_implies_stateful_success',
-            'C08.memoisation_does_not_change_conclusion']
+            'C08.memoisation_does_not_change_conclusion',
+            # the proof generator as written is the model (Pi2/Props/C08b.lean, Pi2/ProofTie.lean, vlib/transproof.py)
+            'C08.proof_text_translated', 'C08.pattern_text_is_the_model', 'C08.memo_pattern_text_is_the_model',
+            'C08.conclusions_text_is_the_model', 'C08.proof_text_is_the_model', 'C08.basic_text_is_the_model',
+            'C08.basic_text_differs_on_unshaped_plugs', 'C08.proof_text_asserts']
 
 
 def run(rep):
     rng = random.Random(rep.seed * 1000003 + 8)
-    ok, detail = core.proof_gate(rep, 'Pi2.Props.C08', THEOREMS)
+    ok, detail = core.proof_gate(rep, 'Pi2.Props.C08b', THEOREMS)
     quick = rep.tier == 'quick'
     N = 150 if quick else 3000
     depth = 2 if quick else 3
